@@ -4,6 +4,7 @@ import (
 	"fmt"
 	"go/token"
 	"go/types"
+	"os"
 	"strings"
 
 	"golang.org/x/tools/go/ssa"
@@ -37,6 +38,12 @@ func runC07(p *Program, r *Report) {
 		r.Undec("C07.R1", "template.(*Template).checkCanParse", "", "anchor not found")
 		return
 	}
+	ff := discoverFreezeFlag(p)
+	if ff == nil {
+		r.Undec("C07.R2", "template.nameSpace#freeze-flag", "", "the execution gates do not both store a non-zero constant into one and the same field of the name space")
+	} else {
+		r.OK("C07.R2", "template.nameSpace#freeze-flag", "", "the freeze flag is the field of the name space that both execution gates set: "+ff.name)
+	}
 	// checkCanParse: non-nil iff escaped, read under the lock
 	{
 		pe := newPathExplorer(p, ccp)
@@ -49,7 +56,10 @@ func runC07(p *Program, r *Report) {
 			}
 			n++
 			isNil := zero || isNilConst(v)
-			escapedTrue := pth.HasMatching(func(name string, val bool) bool { return val && strings.Contains(name, ".escaped") })
+			if os.Getenv("C07_DEBUG") != "" {
+				fmt.Println("C07 ccp path:", pth.String())
+			}
+			escapedTrue := ff != nil && ff.pathSaysFlag(pe, pth, true)
 			nilRecv := pth.HasMatching(func(name string, val bool) bool { return val && strings.HasPrefix(name, "(== param:t nil)") })
 			if isNil && escapedTrue {
 				okAll = false
@@ -141,10 +151,8 @@ func runC07(p *Program, r *Report) {
 			continue
 		}
 		var flagStores []*ssa.Store
-		for _, st := range storesToField(f, pkgTemplate, "nameSpace", "escaped") {
-			if bv, ok := constBool(st.Val); ok && bv {
-				flagStores = append(flagStores, st)
-			}
+		if ff != nil {
+			flagStores = ff.setStores(f)
 		}
 		locks := callsIn(f, "(*sync.Mutex).Lock")
 		pe := newPathExplorer(p, f)
@@ -394,9 +402,10 @@ func checkClone(p *Program, r *Report, pv *Prov) {
 		}
 		// the per-template marks can be lost (New with the name of an executed template replaces it by
 		// a fresh one): the freeze flag of the name space is the only record that the trees were rewritten
-		if !pth.HasMatching(func(name string, val bool) bool {
-			return !val && strings.Contains(strings.Split(name, "@")[0], ".escaped")
-		}) {
+		if os.Getenv("C07_DEBUG") != "" {
+			fmt.Println("C07 clone path:", pth.String())
+		}
+		if ff := discoverFreezeFlag(p); ff == nil || !ff.pathSaysFlag(pe, pth, false) {
 			okSet = false
 		}
 	}
